@@ -375,6 +375,12 @@ func (in *Interp) vIntrinsic(base string, fn *ssa.Function, args []Value) (Value
 		return Ite(args[0].(*Term), args[1].(*Term), args[2].(*Term)), true
 	case "vB2I":
 		return Ite(args[0].(*Term), Const(64, 1), Const(64, 0)), true
+	case "vBlockUntil":
+		in.blockUntil(args[0])
+		return nil, true
+	case "vYield":
+		in.yield()
+		return nil, true
 	case "vConcrete":
 		return Const(64, uint64(in.concretize(args[0].(*Term)))), true
 	case "vAssume":
